@@ -551,7 +551,9 @@ class Registry:
         self.lemmas = {}
 
     def lookup(self, fn):
-        return self.by_code.get(getattr(fn, '__code__', None))
+        code = getattr(fn, '__code__', None)
+        hit = self.by_code.get(id(code))
+        return hit[1] if hit is not None and hit[0] is code else None
 
     def class_contract_of(self, c):
         from .interp import defining_class
@@ -609,8 +611,8 @@ def contract(qualname, props=(), mode='contract'):
         fn = _unwrap_fn(obj, raw)
         c = FnContract(qualname, fn, spec_cls, list(props), mode)
         REGISTRY.fns[qualname] = c
-        REGISTRY.by_code[fn.__code__] = c
-        return spec_cls
+        REGISTRY.by_code[id(fn.__code__)] = (fn.__code__, c)   # identity: equal code objects of
+        return spec_cls                                          # different classes must not collide
     return deco
 
 
@@ -620,7 +622,7 @@ def transparent(*qualnames, props=()):
         fn = _unwrap_fn(obj, raw)
         c = FnContract(q, fn, None, list(props), 'transparent')
         REGISTRY.fns[q] = c
-        REGISTRY.by_code[fn.__code__] = c
+        REGISTRY.by_code[id(fn.__code__)] = (fn.__code__, c)
 
 
 def klass(qualname, props=()):
